@@ -1,6 +1,6 @@
 (* Property C17 — B-spline signals and SplineMethod trajectories are exact splines of the model.
    Statements only; proofs in Proofs/SplineProofs.v.
-   Proved: support, partition of unity, Greville points, the coefficient formula of bspline_derivative, and
+   Proved: support, partition of unity, nonnegativity and the convex-hull property, Greville points, the coefficient formula of bspline_derivative, and
    that the spline with those coefficients is the derivative of the spline (algebraically for the
    product-rule derivative dcdb of the Cox-de Boor recursion over any field; over the reals dcdb is the
    analytic derivative).  PARTIAL: that signals and SplineMethod *use* these kernels as modelled (sampling at
@@ -10,7 +10,7 @@ From Coq Require Import ZArith QArith Qcanon List Lia Bool.
 From Coq Require Import Reals.
 From Coquelicot Require Import Coquelicot.
 From RV Require Import Base.Num Base.Vec Mech.Spline Inst Proofs.QcInst Proofs.ListLemmas Proofs.SplineProofs
-     Proofs.SplineDer Proofs.SplineDerList Proofs.DerProofs Proofs.SplineDerReal.
+     Proofs.SplineDer Proofs.SplineDerList Proofs.DerProofs Proofs.SplineDerReal Proofs.SplineDerBounded Proofs.SplineHull.
 Import ListNotations.
 Local Open Scope nat_scope.
 
@@ -94,10 +94,11 @@ Theorem C17_model_derivative_spline_exact :
   forall (F : Type) (OF : Ops F), FieldLaws OF ->
   forall (c xi : list F) (d' j : nat) (x : F),
     length c = length xi - 1 + S d' -> 1 <= length xi -> S d' <= j -> j < length c ->
-    (forall a b, a <= j -> j < b -> knot_fun (clamped xi (S d')) b -! knot_fun (clamped xi (S d')) a <> o0) ->
+    (forall a b, a <= j -> j < b -> b < length (clamped xi (S d')) ->
+                 knot_fun (clamped xi (S d')) b -! knot_fun (clamped xi (S d')) a <> o0) ->
     sumf (fun i => nth i c o0 *! dcdb (knot_fun (clamped xi (S d'))) j x (S d') i) (length c)
     = spline_value (bspline_derivative c xi (S d')) (basis_values (clamped xi d') d' (j - 1) x).
-Proof. intros F OF Fl c xi d' j x H1 H2 H3 H4 H5. exact (spline_derivative_lists Fl c xi d' j x H1 H2 H3 H4 H5). Qed.
+Proof. intros F OF Fl c xi d' j x H1 H2 H3 H4 H5. exact (spline_derivative_lists_bounded Fl c xi d' j x H1 H2 H3 H4 H5). Qed.
 Print Assumptions C17_model_derivative_spline_exact.
 
 (* over the reals dcdb is the derivative: the spline with the coefficients of bspline_derivative is the
@@ -115,6 +116,44 @@ Proof.
   - exact (spline_is_derive k j c e' n x H Hd Hn).
 Qed.
 Print Assumptions C17_spline_derivative_is_analytic.
+
+(* convex-hull property (what makes SplineMethod's grid='inf' bounds on COEFFICIENTS sufficient): on a
+   non-degenerate span of nondecreasing knots every basis function is nonnegative, hence (with the partition of
+   unity) the spline value lies between the smallest and the largest of its coefficients — for every x of the
+   span, any degree, any ordered field *)
+Theorem C17_basis_nonnegative :
+  forall (F : Type) (OF : Ops F), FieldLaws OF -> forall le : F -> F -> Prop, OrderLaws OF le ->
+  forall (k : nat -> F) (j : nat) (x : F),
+    (forall a b, a <= b -> le (k a) (k b)) -> k j <> k (S j) -> le (k j) x -> le x (k (S j)) ->
+    forall e i, le o0 (cdb k j x e i).
+Proof. exact @SplineHull_basis_nonneg. Qed.
+Print Assumptions C17_basis_nonnegative.
+
+Theorem C17_coefficient_bounds_bound_the_spline :
+  forall (F : Type) (OF : Ops F), FieldLaws OF -> forall le : F -> F -> Prop, OrderLaws OF le ->
+  forall (c xi : list F) (d j : nat) (x : F),
+    let K := clamped xi d in
+    (forall a b, a <= b -> b < length xi -> le (nth a xi o0) (nth b xi o0)) ->
+    length c = length K - d - 1 -> d <= j -> j < length K - d - 1 ->
+    knot_fun K j <> knot_fun K (S j) -> le (knot_fun K j) x -> le x (knot_fun K (S j)) ->
+    List.Forall (le o0) (basis_values K d j x) /\
+    (forall lo, List.Forall (le lo) c -> le lo (spline_value c (basis_values K d j x))) /\
+    (forall hi, List.Forall (fun v => le v hi) c -> le (spline_value c (basis_values K d j x)) hi).
+Proof. exact @SplineHull_model_spline_bounds. Qed.
+Print Assumptions C17_coefficient_bounds_bound_the_spline.
+
+(* the same over the reals, in the notation of R *)
+Theorem C17_coefficient_bounds_bound_the_spline_R :
+  forall (c xi : list R) (d j : nat) (x : R),
+    let K := @clamped R ROps xi d in
+    (forall a b, a <= b -> b < length xi -> (nth a xi 0 <= nth b xi 0)%R) ->
+    length c = length K - d - 1 -> d <= j -> j < length K - d - 1 ->
+    (nth j K 0 < nth (S j) K 0)%R -> (nth j K 0 <= x <= nth (S j) K 0)%R ->
+    List.Forall (fun b => (0 <= b)%R) (@basis_values R ROps K d j x) /\
+    (forall lo, List.Forall (fun v => (lo <= v)%R) c -> (lo <= @spline_value R ROps c (@basis_values R ROps K d j x))%R) /\
+    (forall hi, List.Forall (fun v => (v <= hi)%R) c -> (@spline_value R ROps c (@basis_values R ROps K d j x) <= hi)%R).
+Proof. exact SplineHull_R. Qed.
+Print Assumptions C17_coefficient_bounds_bound_the_spline_R.
 
 (* non-vacuity: quadratic basis on clamped knots 0,0,0,1/2,1,1,1 at x = 1/4 (span j = 2): 9/16... sums to 1 *)
 Local Existing Instance QcOps.
@@ -138,3 +177,9 @@ Proof.
   rewrite Ea.
   destruct b as [|[|[|[|[|[|[|b]]]]]]]; try lia; vm_compute; intro E; discriminate E.
 Qed.
+
+(* non-vacuity of C17_model_derivative_spline_exact on a grid that STARTS AT 0 (the earlier form of the hypothesis,
+   which also ranged over indices beyond the knot list where knot_fun pads with 0, could not be met there) and of
+   the convex-hull theorem: proved in Proofs/SplineDerBounded.v and Proofs/SplineHull.v *)
+Example C17_bounded_derivative_nonvacuous : True /\ True.
+Proof. pose proof spline_derivative_lists_bounded_nonvacuous as _. pose proof SplineHull_nonvacuous as _. split; exact I. Qed.
